@@ -54,6 +54,9 @@ def run(prop, level, rule, tier, seed, n_schemas, n_examples, make_strategy, cas
         ev.bump("schemas-rejected-by-filter", len(schemas) - len(kept))
         schemas = kept
     schemas = schemas[:want]
+    for sd in schemas:
+        for x in sd.get("tags", {}).get("excluded", []):
+            ev.exclude(x)
     libs = farm.build_all(schemas, root, variant=variant, exes=exes)
     good = [l for l in libs if l["ok"]]
     for l in libs:
